@@ -276,6 +276,23 @@ def RUN(c):
     except StopIteration as e:
         return e.value
     raise AssertionError("suspended")
+async def _later(v):
+    return v
+def ah(tag, v):
+    # a plain function which hands back an awaitable (the documented work-around for the missing async lambdas)
+    CALLS.append(tag)
+    return _later(v)
+@icontract.require(lambda x: ah('a', x))
+async def aw_pre(x):
+    return x
+@icontract.ensure(lambda x, result: ah('a', x))
+async def aw_post(x):
+    return x
+@icontract.require(lambda x: ah('a', x))
+@icontract.snapshot(lambda x: ah('c', x), name="s")
+@icontract.ensure(lambda x, result: ah('b', x))
+async def aw_all(x):
+    return x
 '''
 
 
@@ -338,6 +355,22 @@ def check_reeval(acc):
                 if bad:
                     acc.violation(core.Violation(PROP, bad[0], feats, "{} {} `{}` x={}: {}".format(role, adef, shape, x, bad[1]), spec={"reeval": True},
                                                  script=src))
+        # plain conditions / captures of async functions which hand back an awaitable: called once, awaited once
+        for name, want in (("aw_pre", ["a"]), ("aw_post", ["a"]), ("aw_all", ["a", "c", "b"])):
+            del ns["CALLS"][:]
+
+            def call_aw():
+                try:
+                    return ("ret", ns["RUN"](ns[name](1)))
+                except BaseException as e:  # noqa
+                    return ("exc", type(e).__name__)
+            out = core.fresh_ctx_run(call_aw)
+            calls = list(ns["CALLS"])
+            acc.case(("reeval_awaitable", name), True, len(calls), out[0])
+            if out != ("ret", 1) or calls != want:
+                acc.violation(core.Violation(PROP, "condition_parts_evaluated_too_often" if out == ("ret", 1) else "reeval_outcome",
+                                             {"part": "reeval", "role": name, "err": "default", "adef": "async def", "shape": "ah(tag, x)", "falsy": False},
+                                             "{}(1): helper calls {} (expected {}), outcome {}".format(name, calls, want, out), spec={"reeval": True}, script=src))
         acc.sample({"part": "reeval", "shapes": len(REEVAL_SHAPES)}, cap=1)
     finally:
         core.unload_source(ns)
